@@ -150,6 +150,54 @@ class Module:
         self.const_nodes = {}  # scope -> {name: ast value node}
         self._index(self.tree.body, '', None)
         self._scan_consts(self.tree.body, '')
+        self._drop_mutated_consts()
+
+    def _drop_mutated_consts(self):
+        """a module- or class-level table that some function of the module changes (NAME[k] = v, NAME.append(...), del NAME[k],
+        `global NAME` with a store, cls.NAME[...] = ..., self.NAME.update(...)) is not a constant of the model: what it holds depends
+        on what ran before.  (Rebinding an instance attribute of the same name, `self.NAME = ...`, creates an instance attribute and leaves the
+        class-level object alone; it is not a mutation of the table.)"""
+        MUT = ('append', 'extend', 'insert', 'remove', 'pop', 'clear', 'sort', 'reverse', 'update', 'add', 'discard', 'setdefault', 'popitem',
+               'difference_update', 'intersection_update', 'symmetric_difference_update', 'appendleft')
+        for fn in self.funcs.values():
+            globs = {n_ for st in ast.walk(fn.node) if isinstance(st, ast.Global) for n_ in st.names}
+            local = {a.arg for a in fn.node.args.args + fn.node.args.kwonlyargs} | {n.id for n in ast.walk(fn.node) if isinstance(n, ast.Name) and isinstance(n.ctx, ast.Store)}
+            local -= globs
+
+            def base_of(e):
+                # NAME / cls.NAME / self.NAME / Class.NAME -> (scope, name)
+                if isinstance(e, ast.Name):
+                    return ('', e.id) if e.id not in local else None
+                if isinstance(e, ast.Attribute) and isinstance(e.value, ast.Name):
+                    if e.value.id in ('self', 'cls') and fn.cls:
+                        return (fn.cls, e.attr)
+                    if e.value.id in self.classes:
+                        return (e.value.id, e.attr)
+                return None
+            hit = []
+            for n in ast.walk(fn.node):
+                if isinstance(n, ast.Subscript) and isinstance(n.ctx, (ast.Store, ast.Del)):
+                    hit.append(base_of(n.value))
+                elif isinstance(n, ast.Call) and isinstance(n.func, ast.Attribute) and n.func.attr in MUT:
+                    hit.append(base_of(n.func.value))
+                elif isinstance(n, ast.AugAssign):
+                    hit.append(base_of(n.target) if not isinstance(n.target, ast.Subscript) else base_of(n.target.value))
+                elif isinstance(n, ast.Name) and isinstance(n.ctx, ast.Store) and n.id in globs:
+                    hit.append(('', n.id))
+                elif isinstance(n, ast.Attribute) and isinstance(n.ctx, ast.Store) and isinstance(n.value, ast.Name) and (n.value.id == 'cls' or n.value.id in self.classes):
+                    hit.append((fn.cls if n.value.id == 'cls' else n.value.id, n.attr))
+            for h_ in hit:
+                if h_ is None:
+                    continue
+                scope, name = h_
+                scopes = [scope]
+                if scope and scope in self.classes:
+                    # the table may be defined in a base class of the module
+                    scopes += [b.id for b in self.classes[scope].bases if isinstance(b, ast.Name)]
+                for sc in scopes:
+                    if isinstance(self.consts.get(sc, {}).get(name), (dict, list, set)):
+                        self.consts[sc].pop(name, None)
+                        self.__dict__.setdefault('mutated_tables', set()).add((sc, name))
 
     # -- indexing
     def _index(self, body, prefix, cls):
